@@ -228,6 +228,27 @@ theorem expectedCfi_foldr (env : Env) (w : World) (a : Arch) (chain : List Exp) 
   | nil => rfl
   | cons e rest ih => simp only [expectedCfi, List.foldr_cons, ih]
 
+/-- one step of `preCfiFrom`, on the registers of a frame -/
+theorem preCfiFrom_cons {w : World} {a : Arch} {os : Os} {mask : Nat} {mem : Mem} {st : Frame} {lr : Nat}
+    {e : Exp} {rest : List Exp} (hlr : st.trust = .context → lr = st.ctx.raw a (lrName a))
+    (h : preCfiFrom w a os mask mem st.instruction st.ctx.sp (st.ctx.raw a a.fpName) lr (st.trust == .context)
+      (e :: rest) = true) :
+    mem.inRange st.ctx.sp = true ∧ cfiLink w a mask mem st e = true ∧
+      preCfiFrom w a os mask mem (cfiFrame w a st e).instruction (cfiFrame w a st e).ctx.sp
+        ((cfiFrame w a st e).ctx.raw a a.fpName) 0 ((cfiFrame w a st e).trust == .context) rest = true := by
+  simp only [preCfiFrom, Bool.and_eq_true] at h
+  obtain ⟨⟨hin, hl⟩, hrest⟩ := h
+  have hl' : cfiLink w a mask mem st e = true := by
+    unfold cfiLink
+    by_cases hc : st.trust = .context
+    · rw [← hlr hc]; exact hl
+    · have hb : (st.trust == Trust.context) = false := by simpa using hc
+      rw [hb] at hl ⊢
+      rw [linkCfi_lr_irrel w a mask mem _ _ _ _ lr]; exact hl
+  refine ⟨hin, hl', ?_⟩
+  rw [cfiFrame_raw_fp hl']
+  exact hrest
+
 /-- `preCfiFrom` (what `Pre … .cfi` evaluates) implies the frame-by-frame precondition of the induction -/
 theorem preCfiFrom_foldr (w : World) (a : Arch) (os : Os) (mask : Nat) (mem : Mem) (chain : List Exp) :
     ∀ (st : Frame) (lr : Nat), effArch a st.ctx = a →
@@ -243,22 +264,12 @@ theorem preCfiFrom_foldr (w : World) (a : Arch) (os : Os) (mask : Nat) (mem : Me
     simpa [preCfiFrom, cfiEnd] using h
   | cons e rest ih =>
     intro st lr heff hlr h
-    simp only [preCfiFrom, Bool.and_eq_true] at h
-    obtain ⟨⟨hin, hl⟩, hrest⟩ := h
-    have hl' : cfiLink w a mask mem st e = true := by
-      unfold cfiLink
-      by_cases hc : st.trust = .context
-      · rw [← hlr hc]; exact hl
-      · have hb : (st.trust == Trust.context) = false := by simpa using hc
-        rw [hb] at hl ⊢
-        rw [linkCfi_lr_irrel w a mask mem _ _ _ _ lr]; exact hl
+    obtain ⟨hin, hl', hrest⟩ := preCfiFrom_cons hlr h
     simp only [List.foldr_cons, Bool.and_eq_true]
     refine ⟨⟨hin, ?_⟩, ?_⟩
     · simp only [cfiLinkI, Bool.and_eq_true, decide_eq_true_eq]
       exact ⟨heff, hl'⟩
-    · refine ih (cfiFrame w a st e) 0 heff (fun h => by cases h) ?_
-      rw [cfiFrame_raw_fp hl']
-      exact hrest
+    · exact ih (cfiFrame w a st e) 0 heff (fun h => by cases h) hrest
 
 /-- **canonical STACK CFI chains of any depth**: the walk loop returns the frame it starts from and
     then exactly the expected frames — an instance of `walkLoop_chain_generic` -/
